@@ -57,6 +57,22 @@ def gen_cases(ctx, rng):
             c["c10"] = {"family": "add", "at": R, "T": T}
             stats["added_later"] += 1
         cases.append(c)
+    # a timeout toxic that has swallowed data of a connection, is then switched off for it (toxicity 0: the stage passes data on) and is
+    # finally removed: the removal still closes that connection - its stream has a hole and must not be resumed
+    stats["switched_off_then_removed"] = 0
+    for i in range(10 if ctx.tier == "quick" else 200):
+        T = rng.choice([0, 0, 60000])
+        U = rng.range(100, 300) * L.MS + 333
+        R = U + rng.range(50, 400) * L.MS
+        src, t = [], 5 * L.MS
+        while t < R + 300 * L.MS:
+            src.append({"at": t, "n": rng.range(1, 300)})
+            t += rng.choice([7, 23, 60]) * L.MS
+        src.append({"at": t + 5000 * L.MS, "close": True})
+        ops = [{"at": U, "op": "update", "name": "t", "body": '{"toxicity": 0}'}, {"at": R, "op": "remove", "name": "t"} if i % 3 else {"at": R, "op": "reset"}]
+        cases.append({"dir": rng.choice(["upstream", "downstream"]), "chain": ([L.tx("noop", name="n0")] if i % 2 else []) + [L.tx("timeout", name="t", timeout=T)],
+                      "src": src, "ops": ops, "horizon": 3600 * 1000 * L.MS, "seed": 5500 + i, "c10": {"family": "off_then_removed", "at": R, "U": U}})
+        stats["switched_off_then_removed"] += 1
     # the toxic added while the connection's last stage is stuck handing data to a receiver that takes longer than the 5 s after which
     # other parts of the code give up: the request waits for the stage, and from then on the toxic is in effect on that connection too
     stats["added_under_back_pressure"] = 0
@@ -121,6 +137,14 @@ def oracle(case, res):
         exp = R if (T == 0 or R < T * L.MS) else T * L.MS
         if res["closed"] != exp:
             return "connection closed at %d ns, expected %d ns (%s)" % (res["closed"], exp, "the removal" if exp == R else "T")
+        return None
+    if fam and fam["family"] == "off_then_removed":
+        R, U = fam["at"], fam["U"]
+        if any(w["t"] < U for w in (res["writes"] or [])):
+            return "bytes were delivered before %d ns, while the timeout toxic was in effect" % U
+        if res["closed"] != R:
+            return ("the timeout toxic swallowed the connection's data until it was switched off (toxicity 0) at %d ns and was removed at %d ns: the removal closes "
+                    "the connection, yet it %s" % (U, R, "stayed open and went on relaying" if res["closed"] in (-1, None) or res["closed"] > R else "was closed at %d ns" % res["closed"]))
         return None
     if fam and fam["family"] == "update":
         U, T1, T2 = fam["at"], fam["T1"], fam["T2"]
